@@ -266,6 +266,8 @@ def run(chk, repo, tier):
     rule_R8(chk, repo)
     from . import support
     support.chain_compiler_rules(chk, repo, 'C07.R7')
+    support.storage_type_rules(chk, repo, 'C07.R9', {'hamiltonian'})
+    support.graph_table_rules(chk, repo, 'C07.R10', ('OpGraph',))
     chk.undecided += ['operator equality of the optimised and explicit construction', 'unitarity of the gauge matrices',
                       'index ranges of the keys used by the term-insertion functions (only generate_graph / copy_nids are covered by C07.R4)']
     chk.trust('naming convention a_dag ~ creation (C), a_ann ~ annihilation (A) for the get() rule')
